@@ -394,7 +394,7 @@ where
     fn first_byte(&mut self) -> Result<Option<(usize, usize, u8)>, Error> {
         let mut line_num = 0;
 
-        while fill_buf(&mut self.buf_reader)? > 0 {
+        while self.fill()? > 0 {
             let mut pos = 0;
             let mut last_line_len = 0;
             for line in self.get_buf().split(|b| *b == b'\n') {
@@ -496,10 +496,26 @@ where
             }
 
             // fill up remaining buffer
-            fill_buf(&mut self.buf_reader)?;
+            self.fill()?;
 
             if self.search()? {
                 return Ok(true);
+            }
+        }
+    }
+
+    // Fills the buffer. The end of the input is recognized by a buffer that
+    // could not be filled completely, therefore a partly filled buffer cannot be
+    // used any more after a failed read: its contents are discarded and the
+    // reader is finished (until `seek()` is called, which reads the data again).
+    fn fill(&mut self) -> Result<usize, Error> {
+        match fill_buf(&mut self.buf_reader) {
+            Ok(n) => Ok(n),
+            Err(e) => {
+                self.state = State::Finished;
+                let n = self.get_buf().len();
+                self.buf_reader.consume(n);
+                Err(Error::from(e))
             }
         }
     }
@@ -646,20 +662,24 @@ where
         // TODO: does not handle unrealistically large buffers
         let offset = to.byte as i64 - self.position.byte as i64;
         let pos = self.buf_pos.start as i64 + offset;
-        self.position = to.clone();
-        self.state = State::Positioned;
 
         if pos >= 0 && pos < (self.get_buf().len() as i64) {
             // position reachable within buffer -> no actual seeking necessary
+            self.position = to.clone();
+            self.state = State::Positioned;
             self.search_pos = pos as usize;
             self.buf_pos.reset(pos as usize);
             return Ok(());
         }
 
+        // if this fails, nothing has changed
         self.buf_reader.seek(io::SeekFrom::Start(to.byte))?;
-        fill_buf(&mut self.buf_reader)?;
+        // the buffer is empty now
+        self.position = to.clone();
+        self.state = State::Positioned;
         self.search_pos = 0;
         self.buf_pos.reset(0);
+        self.fill()?;
         Ok(())
     }
 }
